@@ -195,6 +195,15 @@ def replay(arg):
             per[(s.uuid, f)] = per.get((s.uuid, f), 0) + 1
     dup_status = sum(1 for v in per.values() if v > 1)
     n_status = sum(per.values())
+    # status by status, the tallies are the frames' pass/fail lists: one TP tally per TP result, one FP tally per FP result that carries a ground
+    # truth, one TN / FN tally per TN / FN object
+    want_t = dict(TP=sum(len(f.pass_fail_result.tp_object_results) for f in frame_results),
+                  FP=sum(1 for f in frame_results for r_ in f.pass_fail_result.fp_object_results if r_.ground_truth_object is not None),
+                  TN=sum(len(f.pass_fail_result.tn_objects) for f in frame_results), FN=sum(len(f.pass_fail_result.fn_objects) for f in frame_results))
+    got_t = dict(TP=sum(len(s.tp_frame_nums) for s in st), FP=sum(len(s.fp_frame_nums) for s in st), TN=sum(len(s.tn_frame_nums) for s in st),
+                 FN=sum(len(s.fn_frame_nums) for s in st))
+    if got_t != want_t:
+        mism.append(("object-status-per-status", "status tallies %s, the frames' pass/fail lists give %s" % (got_t, want_t), rep))
     if n_status != table["numCritical"]:
         if dup_status == table["dup"] and n_status == table["numGtRows"] and table["dup"] > 0:
             mism.append(("object-status:gt-matched-by-failing-estimate-counted-twice",
